@@ -184,6 +184,8 @@ func init() {
 			reportCells(r, "C01/enc-sensitivity", wc.cells[l+"/enc"])
 		}
 		r.floor("C01/enc-sensitivity", 50)
+		wireKindHasStep(wc, r, "C01", []string{"enc"})
+		wireLESpellingSide(w, wc, r, "C01")
 		wireArms(wc, r, "C01", "enc")
 		wireLEColumn(wc, r, "C01", "enc")
 		wireArgOrder(wc, r, "C01")
@@ -212,6 +214,9 @@ func init() {
 			reportCells(r, "C02/dec-sensitivity", wc.cells[l+"/dec"])
 		}
 		r.floor("C02/dec-sensitivity", 50)
+		wireKindHasStep(wc, r, "C02", []string{"dec"})
+		wireLESpellingSide(w, wc, r, "C02")
+		wireListIdiomSide(w, wc, r, "C02")
 		wireSymmetry(wc, r)
 		wireArms(wc, r, "C02", "dec")
 		wireLEColumn(wc, r, "C02", "dec")
